@@ -2,7 +2,7 @@
    Property theorems only: each is closed by `exact <lemma>`; Print Assumptions must report a closed term.
    Model: Model/C26Schema.v (normalize_name per dialect, default names, schema.tables/schema.names registry,
    Column registration, order_tables_to_create). *)
-Require Import PonyV.Base.PyBase PonyV.Model.C26Schema PonyV.Proofs.C26Proofs.
+Require Import PonyV.Base.PyBase PonyV.Model.C26Schema PonyV.Model.C26Create PonyV.Proofs.C26Proofs PonyV.Proofs.C26CreateProofs.
 From Coq Require Import Permutation.
 
 (* Every accepted schema (every registration passed the duplicate checks of Table / DBIndex / ForeignKey): the object
@@ -49,6 +49,22 @@ Theorem C26_columns : forall attrs cols,
   length cols = fold_right (fun a n => (length (a_cols a) + n)%nat) 0%nat attrs.
 Proof. exact columns_spec. Qed.
 Print Assumptions C26_columns.
+
+(* DBSchema.create_tables over a database that already holds ANY subset of the declared objects (an earlier release of the
+   model, an index dropped by hand, a crashed first run): if it returns, every declared object of every table exists
+   afterwards, nothing that existed is lost and nothing undeclared is created; and it returns unless an object exists under a
+   name that differs only by letter case. *)
+Theorem C26_create_tables : forall othercase tables db db',
+  create_tables othercase tables db = Some db' ->
+  incl db db' /\ (forall t o, In t tables -> In o t -> In o db') /\
+  (forall o, In o db' -> In o db \/ exists t, In t tables /\ In o t).
+Proof. exact create_tables_spec. Qed.
+Print Assumptions C26_create_tables.
+
+Theorem C26_create_tables_succeeds : forall othercase tables db,
+  (forall t o, In t tables -> In o t -> othercase o = false) -> exists db', create_tables othercase tables db = Some db'.
+Proof. exact create_tables_total. Qed.
+Print Assumptions C26_create_tables_succeeds.
 
 Open Scope Z_scope.
 Example C26_nonvacuous :
